@@ -25,7 +25,7 @@ REQUIRED_MONITORS = ["C04.peak_index==first-argmax-in-band", "C04.peak_frequency
                      "C04.peak_direction==per-frequency[peak]", "C04.peak_spread==per-frequency[peak]",
                      "C04.batch==single"]
 REQUIRED_REACH = ["spectrum.py:WaveSpectrum.peak_index", "spectrum.py:WaveSpectrum.peak_wavenumber"]
-REQUIRED_COUNTERS = {"C04.ties": 5, "C04.peak_outside_band": 5, "C04.scalar_layout_wavenumber": 1}
+REQUIRED_COUNTERS = {"C04.read-modify-read_sequences": 5, "C04.ties": 5, "C04.peak_outside_band": 5, "C04.scalar_layout_wavenumber": 1}
 TIMEOUT = {"quick": 600, "thorough": 3000}
 N = {"quick": (8, 30), "thorough": (16, 250)}
 
@@ -227,6 +227,34 @@ def judge(ctx, c, rng):
                           key="C04:batch:peak_wavenumber")
 
 
+def judge_sequence(ctx, c, rng):
+    """query the peak, rescale the same object in place so that the peak moves, query again"""
+    s = gs.build(c)
+    f = c["freq"]
+    nf = len(f)
+    if nf < 3:
+        return
+    ctx.case(gs.descriptor(c) + ("read-modify-read",), nontrivial=True,
+             sample={"kind": c["kind"], "layout": c["layout"], "sequence": "peak queries, multiply(inplace=True), peak queries"})
+    wit = lambda: {"gen": c, "sequence": True}  # noqa
+    band = (0.0, np.inf) if rng.uniform() < 0.5 else (float(f[1]), float(f[-1]))
+
+    def read():
+        for name in ("peak_index", "peak_frequency", "peak_period", "peak_direction", "peak_directional_spread"):
+            guarded(ctx, "C04.no-exception", lambda: getattr(s, name)(*band), wit, key=f"C04:{name}:exception")
+        guarded(ctx, "C04.no-exception", lambda: s.peak_wavenumber, wit, key="C04:peak_wavenumber:exception")
+    read()
+    # emphasise a different frequency
+    j = int(rng.integers(0, nf))
+    ramp = np.full(nf, 1e-3)
+    ramp[j] = 1e3
+    guarded(ctx, "C04.no-exception", lambda: s.multiply(ramp, ["frequency"], inplace=True), wit)
+    ctx.count("C04.read-modify-read_sequences")
+    read()
+    guarded(ctx, "C04.no-exception", lambda: s.fillna(0.0), wit)
+    read()
+
+
 def make_case(rng):
     if rng.uniform() < 0.5:
         c = gs.case_1d(rng, nf=int(rng.integers(1, 30)), depth_kind="mixed" if rng.uniform() < 0.6 else None,
@@ -249,6 +277,8 @@ def run_shard(ctx, shard):
         c = make_case(rng)
         c["_sub"] = int(rng.integers(0, 2 ** 62))
         judge(ctx, c, np.random.default_rng(c["_sub"]))
+        if i % 3 == 0:
+            judge_sequence(ctx, c, np.random.default_rng(c["_sub"] + 1))
 
 
 def replay(ctx, case):
@@ -257,4 +287,7 @@ def replay(ctx, case):
         ms.call_case(case)
     else:
         g = case["gen"]
-        judge(ctx, g, np.random.default_rng(int(g["_sub"])))
+        if case.get("sequence"):
+            judge_sequence(ctx, g, np.random.default_rng(int(g["_sub"]) + 1))
+        else:
+            judge(ctx, g, np.random.default_rng(int(g["_sub"])))
